@@ -52,9 +52,7 @@ Proof.
   assert (Hc : exists c, b :: t = c ++ skipn size (b :: t) /\ length c = size).
   { exists (firstn size (b :: t)). rewrite firstn_skipn, firstn_length. split; [reflexivity|lia]. }
   destruct Hc as [c [Hc Lc]].
-  destruct (skipn size (b :: t)) as [|b' t'] eqn:S.
-  - exists c. simpl. rewrite R. split; [exact Hc|lia].
-  - destruct (N.eqb r 10); exists c; simpl; rewrite R; (split; [exact Hc|lia]).
+  destruct (N.eqb r 10); exists c; simpl; rewrite R; (split; [exact Hc|lia]).
 Qed.
 
 Lemma advance_progress st : at_end st = false -> length (rest (advance st)) < length (rest st).
@@ -65,7 +63,6 @@ Proof.
   { pose proof (decode_size_pos (b :: t)) as H. rewrite D in H. apply H. discriminate. }
   assert (Hl : length (skipn size (b :: t)) < length (b :: t)).
   { rewrite skipn_length. cbn [length]. lia. }
-  destruct (skipn size (b :: t)) eqn:S; [simpl; lia|].
   destruct (N.eqb r 10); simpl in *; lia.
 Qed.
 
